@@ -8,6 +8,7 @@ import PolyVerif.Lemmas.Solids
 import PolyVerif.Lemmas.RealScalar
 import PolyVerif.Gen.CubeTable
 import Mathlib.Tactic
+import Mathlib.Analysis.SpecialFunctions.Trigonometric.Bounds
 namespace PolyVerif.Solids
 open Real
 
@@ -586,5 +587,359 @@ theorem hemisphere_outward_aux {R C : Nat} {r : ℝ} (hr : 0 < r) (hR : 2 ≤ R)
     have hf := shift_factor_pos hr hs.le (sin_hdelta_pos hR)
     rw [← @psiOf_step R (j + 1) hR (by omega)] at hf
     positivity
+
+/-! ### six-quad box normals; inscribedness -/
+
+theorem cubeQuads_normals_outward_aux {w h d : ℝ} (hw : 0 < w) (hh : 0 < h) (hd : 0 < d) :
+    NormalsOutward (cubeQuadsPos w h d) cubeQuadsNormal cubeQuadsTris := by
+  have k1 : 0 < w * h := by positivity
+  have k2 : 0 < w * d := by positivity
+  have k3 : 0 < h * d := by positivity
+  intro t ht
+  simp [cubeQuadsTris, quadTris, shift, List.range, List.range.loop] at ht
+  rcases ht with rfl | rfl | rfl | rfl | rfl | rfl | rfl | rfl | rfl | rfl | rfl | rfl <;>
+  · simp [cubeQuadsPos, cubeQuadsPt, cubeQuadsCornerTable, cubeQuadsNormal, cornerPos, faceNormal, V3.Dot, V3.Cross,
+      V3.Sub, V3.New]
+    nlinarith [k1, k2, k3]
+
+theorem Pang_lengthSquared (r φ θ : ℝ) : (Pang r φ θ).LengthSquared = r ^ 2 := by
+  simp only [Pang, V3.LengthSquared, V3.New, V3.Scale]
+  have h1 := sin_sq_add_cos_sq φ
+  have h2 := sin_sq_add_cos_sq θ
+  have : (sin φ * cos θ * r) * (sin φ * cos θ * r) + cos φ * r * (cos φ * r) + sin φ * sin θ * r * (sin φ * sin θ * r)
+      = r ^ 2 * (sin φ ^ 2 * (sin θ ^ 2 + cos θ ^ 2) + cos φ ^ 2) := by ring
+  rw [this, h2, mul_one, h1, mul_one]
+
+/-- every vertex of the welded sphere lies on the sphere of radius `r`: the polyhedron is inscribed -/
+theorem uvSphere_inscribed_aux {R C : Nat} (r : ℝ) (hR : 2 ≤ R) (hC : 3 ≤ C) :
+    ∀ t ∈ uvSphereTris R C, (uvSpherePos r R C t.1).LengthSquared = r ^ 2 ∧
+      (uvSpherePos r R C t.2.1).LengthSquared = r ^ 2 ∧ (uvSpherePos r R C t.2.2).LengthSquared = r ^ 2 := by
+  rw [uvSphereTris_eq_map hR]
+  intro t ht
+  obtain ⟨t', ht', rfl⟩ := List.mem_map.1 ht
+  have hv : UvValid R C t'.1 ∧ UvValid R C t'.2.1 ∧ UvValid R C t'.2.2 := by
+    have he : ∀ e ∈ triEdges t', e ∈ edges (sphereL R C) := fun e he => List.mem_flatMap.2 ⟨t', ht', he⟩
+    have h1 := sphereL_valid hR hC _ (he (t'.1, t'.2.1) (by simp [triEdges]))
+    have h2 := sphereL_valid hR hC _ (he (t'.2.1, t'.2.2) (by simp [triEdges]))
+    exact ⟨h1.1, h1.2, h2.2⟩
+  simp only [tm, uvSpherePos_enc r hR hC _ hv.1, uvSpherePos_enc r hR hC _ hv.2.1,
+    uvSpherePos_enc r hR hC _ hv.2.2, uvPosL, Pang_lengthSquared, and_self]
+
+/-! ### volume -/
+
+theorem volume6_eq_sum (pos : Nat → V3 ℝ) (ts : List Tri) :
+    volume6 pos ts = (ts.map fun t => det3 (pos t.1) (pos t.2.1) (pos t.2.2)).sum := by
+  have : ∀ (acc : ℝ), ts.foldl (fun acc t => acc + det3 (pos t.1) (pos t.2.1) (pos t.2.2)) acc
+      = acc + (ts.map fun t => det3 (pos t.1) (pos t.2.1) (pos t.2.2)).sum := by
+    induction ts with
+    | nil => intro acc; simp
+    | cons t ts ih => intro acc; simp only [List.foldl_cons, List.map_cons, List.sum_cons, ih]; ring
+  simp only [volume6, n2a_real, Nat.cast_zero, this, zero_add]
+
+theorem cube_volume_aux (w h d : ℝ) :
+    volume6 (cubeWeldedPos w h d) (unflat Gen.CubeTable.cubeVertIndices) = 6 * (w * h * d) := by
+  simp [volume6, Gen.CubeTable.cubeVertIndices, unflat, cubeWeldedPos, cornerPos, det3, V3.Dot, V3.Cross, V3.New]
+  ring
+
+theorem cubeQuads_volume_aux (w h d : ℝ) :
+    volume6 (cubeQuadsPos w h d) cubeQuadsTris = 6 * (w * h * d) := by
+  simp [volume6, cubeQuadsTris, quadTris, shift, List.range, List.range.loop, cubeQuadsPos, cubeQuadsPt,
+    cubeQuadsCornerTable, cornerPos, det3, V3.Dot, V3.Cross, V3.New]
+  ring
+
+theorem sum_map_const {β : Type} (l : List β) (f : β → ℝ) (c : ℝ) (h : ∀ x ∈ l, f x = c) :
+    (l.map f).sum = l.length * c := by
+  induction l with
+  | nil => simp
+  | cons a l ih =>
+    simp only [List.map_cons, List.sum_cons, List.length_cons, Nat.cast_succ]
+    rw [h a (by simp), ih (fun x hx => h x (by simp [hx]))]; ring
+theorem cyl_det_side {S : Nat} (r H : ℝ) (hS : 3 ≤ S) : ∀ t ∈ cylinderSideTris S,
+    det3 (cylinderPos r H S t.1) (cylinderPos r H S t.2.1) (cylinderPos r H S t.2.2) = H * r ^ 2 * sin (2 * π / S) := by
+  intro t ht
+  simp only [cylinderSideTris, List.mem_flatMap, List.mem_range, List.mem_cons, List.not_mem_nil, or_false] at ht
+  obtain ⟨i, hi, rfl | rfl⟩ := ht
+  · rw [show 2 * i + 2 = 2 * (i + 1) by ring, (cylPos_side r H (show i ≤ S by omega)).1,
+      (cylPos_side r H (show i ≤ S by omega)).2, (cylPos_side r H (show i + 1 ≤ S by omega)).1, det_side1, sin_dang hS]
+    ring
+  · rw [show 2 * i + 3 = 2 * (i + 1) + 1 by ring, show 2 * i + 2 = 2 * (i + 1) by ring,
+      (cylPos_side r H (show i ≤ S by omega)).2, (cylPos_side r H (show i + 1 ≤ S by omega)).1,
+      (cylPos_side r H (show i + 1 ≤ S by omega)).2, det_side2, sin_dang hS]
+    ring
+
+theorem cyl_det_top {S : Nat} (r H : ℝ) (hS : 3 ≤ S) : ∀ t ∈ shift (cylinderSideNV S) (circleTris S),
+    det3 (cylinderPos r H S t.1) (cylinderPos r H S t.2.1) (cylinderPos r H S t.2.2) = H / 2 * r ^ 2 * sin (2 * π / S) := by
+  intro t ht
+  simp only [shift, circleTris, List.map_append, List.map_map, List.map_cons, List.map_nil, List.mem_append,
+    List.mem_map, List.mem_range, List.mem_cons, List.not_mem_nil, or_false, Function.comp] at ht
+  rcases ht with ⟨i, hi, rfl⟩ | rfl
+  · rw [cylPos_top r H (show i < S by omega), cylPos_top r H (show i + 1 < S by omega), cylPos_topc, det_top,
+      sin_dang hS]
+  · rw [cylPos_top r H (show S - 1 < S by omega), cylPos_top r H (show 0 < S by omega), cylPos_topc, det_top,
+      sin_dang_last hS]
+
+theorem cyl_det_bot {S : Nat} (r H : ℝ) (hS : 3 ≤ S) :
+    ∀ t ∈ shift (cylinderSideNV S + circleNV S) (circleTris S),
+    det3 (cylinderPos r H S t.1) (cylinderPos r H S t.2.1) (cylinderPos r H S t.2.2) = H / 2 * r ^ 2 * sin (2 * π / S) := by
+  intro t ht
+  simp only [shift, circleTris, List.map_append, List.map_map, List.map_cons, List.map_nil, List.mem_append,
+    List.mem_map, List.mem_range, List.mem_cons, List.not_mem_nil, or_false, Function.comp] at ht
+  rcases ht with ⟨i, hi, rfl⟩ | rfl
+  · rw [cylPos_bot r H (show i < S by omega), cylPos_bot r H (show i + 1 < S by omega), cylPos_botc, det_bot,
+      sin_dang hS]
+  · rw [cylPos_bot r H (show S - 1 < S by omega), cylPos_bot r H (show 0 < S by omega), cylPos_botc, det_bot,
+      sin_dang_last hS]
+
+theorem cylinderSideTris_length (S : Nat) : (cylinderSideTris S).length = 2 * S := by
+  simp [cylinderSideTris, List.length_flatMap]; ring
+
+theorem circleTris_shift_length (S k : Nat) (hS : 1 ≤ S) : (shift k (circleTris S)).length = S := by
+  simp [shift, circleTris]; omega
+
+/-- six times the enclosed volume of the capped cylinder = `6 · (S/2)·sin(2π/S)·r²·H`, the prism over the inscribed
+    regular `S`-gon -/
+theorem cylinder_volume_aux {S : Nat} (r H : ℝ) (hS : 3 ≤ S) :
+    volume6 (cylinderPos r H S) (cylinderTris S false false) = 6 * ((S : ℝ) / 2 * sin (2 * π / S) * r ^ 2 * H) := by
+  rw [volume6_eq_sum]
+  simp only [cylinderTris, Bool.false_eq_true, if_false, List.map_append, List.sum_append]
+  rw [sum_map_const _ _ _ (cyl_det_side r H hS), sum_map_const _ _ _ (cyl_det_top r H hS),
+    sum_map_const _ _ _ (cyl_det_bot r H hS), cylinderSideTris_length, circleTris_shift_length _ _ (by omega),
+    circleTris_shift_length _ _ (by omega)]
+  push_cast
+  ring
+
+/-! ### sphere volume in closed form -/
+
+theorem sum_flatMap' {β : Type} (l : List β) (h : β → List ℝ) :
+    (l.flatMap h).sum = (l.map fun a => (h a).sum).sum := by
+  induction l with
+  | nil => simp
+  | cons a l ih => simp [List.flatMap_cons, List.sum_append, ih]
+
+/-- product-to-sum, in the telescoping form used below -/
+theorem sin_mul_sin_tel (a d : ℝ) : sin a * sin d = (cos (a - d) - cos (a + d)) / 2 := by
+  rw [cos_sub, cos_add]; ring
+
+/-- `sin δ · Σ_{j<n} (sin((j+1)δ) + sin((j+2)δ))` telescopes -/
+theorem strip_sum_tel (δ : ℝ) (n : Nat) :
+    sin δ * ((List.range n).map fun j : Nat => sin (((j : ℝ) + 1) * δ) + sin (((j : ℝ) + 2) * δ)).sum =
+      (cos (0 * δ) + cos (1 * δ) - cos ((n : ℝ) * δ) - cos (((n : ℝ) + 1) * δ)) / 2 +
+      (cos (1 * δ) + cos (2 * δ) - cos (((n : ℝ) + 1) * δ) - cos (((n : ℝ) + 2) * δ)) / 2 := by
+  induction n with
+  | zero => simp
+  | succ n ih =>
+    rw [List.range_succ, List.map_append, List.sum_append, mul_add, ih]
+    simp only [List.map_cons, List.map_nil, List.sum_cons, List.sum_nil, add_zero]
+    have e1 := sin_mul_sin_tel (((n : ℝ) + 1) * δ) δ
+    have e2 := sin_mul_sin_tel (((n : ℝ) + 2) * δ) δ
+    have a1 : ((n : ℝ) + 1) * δ - δ = (n : ℝ) * δ := by ring
+    have a2 : ((n : ℝ) + 1) * δ + δ = ((n : ℝ) + 2) * δ := by ring
+    have a3 : ((n : ℝ) + 2) * δ - δ = ((n : ℝ) + 1) * δ := by ring
+    have a4 : ((n : ℝ) + 2) * δ + δ = ((n : ℝ) + 1 + 2) * δ := by ring
+    rw [a1, a2] at e1
+    rw [a3, a4] at e2
+    push_cast
+    have a5 : ((n : ℝ) + 1 + 1) * δ = ((n : ℝ) + 2) * δ := by ring
+    rw [a5]
+    linear_combination e1 + e2
+
+/-- the ring sum of the sphere: with `δ = π/R`,
+    `sin δ · (sin δ + sin((R-1)δ) + Σ_{j<R-2} (sin((j+1)δ) + sin((j+2)δ))) = 2·(1 + cos δ)` -/
+theorem sphere_ring_sum {R : Nat} (hR : 2 ≤ R) :
+    sin (π / R) * (sin (π / R) + sin (((R : ℝ) - 1) * (π / R)) +
+      ((List.range (R - 2)).map fun j : Nat => sin (((j : ℝ) + 1) * (π / R)) + sin (((j : ℝ) + 2) * (π / R))).sum) =
+      2 * (1 + cos (π / R)) := by
+  have hR0 : (R : ℝ) ≠ 0 := by positivity
+  have hc : ((R - 2 : ℕ) : ℝ) = (R : ℝ) - 2 := by rw [Nat.cast_sub hR]; simp
+  set δ := π / (R : ℝ) with hδ
+  have hπ : (R : ℝ) * δ = π := by rw [hδ]; field_simp
+  rw [mul_add, strip_sum_tel, hc]
+  have b1 : ((R : ℝ) - 2) * δ = π - 2 * δ := by linear_combination hπ
+  have b2 : ((R : ℝ) - 2 + 1) * δ = π - δ := by linear_combination hπ
+  have b3 : ((R : ℝ) - 2 + 2) * δ = π := by linear_combination hπ
+  have b4 : ((R : ℝ) - 1) * δ = π - δ := by linear_combination hπ
+  rw [b1, b2, b3, b4, cos_pi_sub, cos_pi_sub, cos_pi, sin_pi_sub]
+  simp only [zero_mul, one_mul, cos_zero]
+  have h2 : cos (2 * δ) = 1 - 2 * sin δ ^ 2 := by rw [cos_two_mul, cos_sq']; ring
+  rw [h2]; ring
+theorem dphi {R : Nat} (hR : 2 ≤ R) (ρ : Nat) : phiOf R (ρ + 1) - phiOf R ρ = π / R := by
+  have hR' : (R : ℝ) ≠ 0 := by positivity
+  unfold phiOf; push_cast; field_simp; ring
+
+theorem phiOf_mul (R k : Nat) : phiOf R k = (k : ℝ) * (π / R) := by unfold phiOf; ring
+
+/-- logical determinant of a triangle -/
+noncomputable def detL (r : ℝ) (R C : Nat) (t : LP × LP × LP) : ℝ :=
+  det3 (uvPosL r R C t.1) (uvPosL r R C t.2.1) (uvPosL r R C t.2.2)
+
+theorem detL_top {R C i : Nat} (r : ℝ) (hR : 2 ≤ R) (hC : 3 ≤ C) (hi : i < C) :
+    detL r R C ((0, 0), (1, (i + 1) % C), (1, i)) = r ^ 3 * sin (phiOf R 1) * sin (π / R) * sin (2 * π / C) := by
+  simp only [detL, uvPosL]
+  have h0 : phiOf R 0 = 0 := by simp [phiOf]
+  have e : Pang r (phiOf R 0) (thetaOf C 0) = Pang r (phiOf R 0) (thetaOf C i) := by
+    rw [h0]; exact Pang_zero _ _ _
+  rw [e, detB, sin_dtheta hC hi, dphi hR 0]
+
+theorem detL_bot {R C i : Nat} (r : ℝ) (hR : 2 ≤ R) (hC : 3 ≤ C) (hi : i < C) :
+    detL r R C ((R, 0), (R - 1, i), (R - 1, (i + 1) % C)) =
+      r ^ 3 * sin (phiOf R (R - 1)) * sin (π / R) * sin (2 * π / C) := by
+  simp only [detL, uvPosL]
+  have hR0 : (R : ℝ) ≠ 0 := by positivity
+  have hpi : phiOf R R = π := by simp [phiOf, mul_div_cancel_right₀ _ hR0]
+  have e : Pang r (phiOf R R) (thetaOf C 0) = Pang r (phiOf R R) (thetaOf C ((i + 1) % C)) := by
+    rw [hpi]; exact Pang_pi _ _ _
+  have d := dphi hR (R - 1)
+  rw [show R - 1 + 1 = R by omega] at d
+  rw [det3_rot, e, detA, sin_dtheta hC hi, d]
+
+theorem detL_A {R C i : Nat} (r : ℝ) (hR : 2 ≤ R) (hC : 3 ≤ C) (hi : i < C) (j : Nat) :
+    detL r R C ((j + 1, i), (j + 1, (i + 1) % C), (j + 2, (i + 1) % C)) =
+      r ^ 3 * sin (phiOf R (j + 1)) * sin (π / R) * sin (2 * π / C) := by
+  simp only [detL, uvPosL]
+  rw [detA, sin_dtheta hC hi, dphi hR (j + 1)]
+
+theorem detL_B {R C i : Nat} (r : ℝ) (hR : 2 ≤ R) (hC : 3 ≤ C) (hi : i < C) (j : Nat) :
+    detL r R C ((j + 1, i), (j + 2, (i + 1) % C), (j + 2, i)) =
+      r ^ 3 * sin (phiOf R (j + 2)) * sin (π / R) * sin (2 * π / C) := by
+  simp only [detL, uvPosL]
+  rw [detB, sin_dtheta hC hi, dphi hR (j + 1)]
+
+theorem sphereL_det_sum {R C : Nat} (r : ℝ) (hR : 2 ≤ R) (hC : 3 ≤ C) :
+    ((sphereL R C).map (detL r R C)).sum = 2 * C * r ^ 3 * sin (2 * π / C) * (1 + cos (π / R)) := by
+  simp only [sphereL, List.map_append, List.sum_append, List.map_flatMap, sum_flatMap', List.map_cons, List.map_nil,
+    List.sum_cons, List.sum_nil, add_zero]
+  set K : ℝ := r ^ 3 * sin (π / R) * sin (2 * π / C) with hK
+  have hf : ((List.range C).map fun a => detL r R C ((0, 0), (1, (a + 1) % C), (1, a)) +
+        detL r R C ((R, 0), (R - 1, a), (R - 1, (a + 1) % C))).sum
+      = C * (K * (sin (phiOf R 1) + sin (phiOf R (R - 1)))) := by
+    rw [sum_map_const _ _ (K * (sin (phiOf R 1) + sin (phiOf R (R - 1)))) (fun i hi => ?_), List.length_range]
+    have hi := List.mem_range.1 hi
+    simp only [detL_top r hR hC hi, detL_bot r hR hC hi, hK]
+    ring
+  have hs : ∀ j : Nat, ((List.range C).map fun a_1 =>
+        detL r R C ((j + 1, a_1), (j + 1, (a_1 + 1) % C), (j + 2, (a_1 + 1) % C)) +
+        detL r R C ((j + 1, a_1), (j + 2, (a_1 + 1) % C), (j + 2, a_1))).sum
+      = (C * K) * (sin (phiOf R (j + 1)) + sin (phiOf R (j + 2))) := by
+    intro j
+    rw [sum_map_const _ _ (K * (sin (phiOf R (j + 1)) + sin (phiOf R (j + 2)))) (fun i hi => ?_), List.length_range]
+    · ring
+    · have hi := List.mem_range.1 hi
+      simp only [detL_A r hR hC hi, detL_B r hR hC hi, hK]
+      ring
+  simp only [hf, hs]
+  rw [List.sum_map_mul_left]
+  have key := sphere_ring_sum hR
+  have e1 : phiOf R 1 = π / R := by rw [phiOf_mul]; simp
+  have e2 : phiOf R (R - 1) = ((R : ℝ) - 1) * (π / R) := by
+    rw [phiOf_mul, Nat.cast_sub (by omega)]; simp
+  have e3 : ((List.range (R - 2)).map fun j : Nat => sin (phiOf R (j + 1)) + sin (phiOf R (j + 2))) =
+      ((List.range (R - 2)).map fun j : Nat => sin (((j : ℝ) + 1) * (π / R)) + sin (((j : ℝ) + 2) * (π / R))) := by
+    refine List.map_congr_left fun j _ => ?_
+    rw [phiOf_mul, phiOf_mul]; push_cast; rfl
+  rw [e1, e2, e3]
+  rw [hK]
+  linear_combination (C * r ^ 3 * sin (2 * π / C)) * key
+theorem sphereL_tri_valid {R C : Nat} (hR : 2 ≤ R) (hC : 3 ≤ C) {t : LP × LP × LP} (ht : t ∈ sphereL R C) :
+    UvValid R C t.1 ∧ UvValid R C t.2.1 ∧ UvValid R C t.2.2 := by
+  have he : ∀ e ∈ triEdges t, e ∈ edges (sphereL R C) := fun e he => List.mem_flatMap.2 ⟨t, ht, he⟩
+  have h1 := sphereL_valid hR hC _ (he (t.1, t.2.1) (by simp [triEdges]))
+  have h2 := sphereL_valid hR hC _ (he (t.2.1, t.2.2) (by simp [triEdges]))
+  exact ⟨h1.1, h1.2, h2.2⟩
+
+/-- six times the enclosed volume of the UV sphere, in closed form -/
+theorem uvSphere_volume_aux {R C : Nat} (r : ℝ) (hR : 2 ≤ R) (hC : 3 ≤ C) :
+    volume6 (uvSpherePos r R C) (uvSphereTris R C) = 2 * C * r ^ 3 * sin (2 * π / C) * (1 + cos (π / R)) := by
+  rw [volume6_eq_sum, uvSphereTris_eq_map hR, List.map_map, ← sphereL_det_sum r hR hC]
+  congr 1
+  refine List.map_congr_left fun t ht => ?_
+  obtain ⟨v1, v2, v3⟩ := sphereL_tri_valid hR hC ht
+  simp only [Function.comp, tm, detL, uvSpherePos_enc r hR hC _ v1, uvSpherePos_enc r hR hC _ v2,
+    uvSpherePos_enc r hR hC _ v3]
+
+/-! ### volume bounds: the polyhedra approach the analytic volume -/
+
+theorem volume6_map (pos : Nat → V3 ℝ) (f : Nat → Nat) (ts : List Tri) :
+    volume6 (fun v => pos (f v)) ts = volume6 pos (ts.map (tmap f)) := by
+  rw [volume6_eq_sum, volume6_eq_sum, List.map_map]; rfl
+
+/-- `n·sin(2π/n)` is at most `2π` and at least `2π·(1 − 2π²/(3n²))` -/
+theorem ngon_bounds {n : Nat} (hn : 1 ≤ n) :
+    (n : ℝ) * sin (2 * π / n) ≤ 2 * π ∧ 2 * π * (1 - 2 * π ^ 2 / (3 * (n : ℝ) ^ 2)) ≤ (n : ℝ) * sin (2 * π / n) := by
+  have hn0 : (0 : ℝ) < n := by exact_mod_cast (by omega : 0 < n)
+  set x := 2 * π / (n : ℝ) with hx
+  have hx0 : 0 < x := by positivity
+  have hnx : (n : ℝ) * x = 2 * π := by rw [hx]; field_simp
+  constructor
+  · have := Real.sin_le hx0.le
+    nlinarith
+  · have h := (Real.sin_gt_sub_cube hx0).le
+    have e : 2 * π * (1 - 2 * π ^ 2 / (3 * (n : ℝ) ^ 2)) = (n : ℝ) * (x - x ^ 3 / 6) := by
+      rw [hx]; field_simp; ring
+    rw [e]
+    exact mul_le_mul_of_nonneg_left h hn0.le
+
+/-- `(1 + cos(π/R))/2 ∈ [1 − π²/(4R²), 1]` -/
+theorem polar_bounds {R : Nat} (hR : 2 ≤ R) :
+    1 + cos (π / R) ≤ 2 ∧ 2 * (1 - π ^ 2 / (4 * (R : ℝ) ^ 2)) ≤ 1 + cos (π / R) := by
+  have hR0 : (0 : ℝ) < R := by exact_mod_cast (by omega : 0 < R)
+  constructor
+  · linarith [cos_le_one (π / R)]
+  · have h := Real.one_sub_sq_div_two_le_cos (x := π / R)
+    have e : 2 * (1 - π ^ 2 / (4 * (R : ℝ) ^ 2)) = 1 + (1 - (π / R) ^ 2 / 2) := by field_simp; ring
+    rw [e]; linarith
+
+
+theorem uvSphere_volume_bounds_aux {R C : Nat} {r : ℝ} (hr : 0 < r) (hR : 2 ≤ R) (hC : 3 ≤ C) :
+    volume6 (uvSpherePos r R C) (uvSphereTris R C) / 6 ≤ 4 / 3 * π * r ^ 3 ∧
+    4 / 3 * π * r ^ 3 * (1 - 2 * π ^ 2 / (3 * (C : ℝ) ^ 2) - π ^ 2 / (4 * (R : ℝ) ^ 2)) ≤
+      volume6 (uvSpherePos r R C) (uvSphereTris R C) / 6 := by
+  rw [uvSphere_volume_aux r hR hC]
+  obtain ⟨a1, a2⟩ := @ngon_bounds C (by omega)
+  obtain ⟨b1, b2⟩ := polar_bounds hR
+  have hA : 0 < (C : ℝ) * sin (2 * π / C) := by
+    have : (0 : ℝ) < C := by exact_mod_cast (by omega : 0 < C)
+    exact mul_pos this (sin_dtheta_pos hC)
+  have hB : 0 ≤ 1 + cos (π / R) := by linarith [neg_one_le_cos (π / R)]
+  have hr3 : 0 < r ^ 3 := by positivity
+  set A := (C : ℝ) * sin (2 * π / C) with hAdef
+  set B := 1 + cos (π / R) with hBdef
+  set a := 2 * π ^ 2 / (3 * (C : ℝ) ^ 2) with hadef
+  set b := π ^ 2 / (4 * (R : ℝ) ^ 2) with hbdef
+  have ha0 : 0 ≤ a := by positivity
+  have hb0 : 0 ≤ b := by positivity
+  have e : 2 * (C : ℝ) * r ^ 3 * sin (2 * π / C) * B / 6 = r ^ 3 / 3 * (A * B) := by rw [hAdef]; ring
+  rw [e]
+  have hAB1 : A * B ≤ 2 * π * 2 := by
+    calc A * B ≤ 2 * π * B := mul_le_mul_of_nonneg_right a1 hB
+      _ ≤ 2 * π * 2 := mul_le_mul_of_nonneg_left b1 (by positivity)
+  have hAB2 : 4 * π * (1 - a - b) ≤ A * B := by
+    by_cases hneg : 1 - a - b ≤ 0
+    · have : 0 ≤ A * B := mul_nonneg hA.le hB
+      have : 4 * π * (1 - a - b) ≤ 0 := mul_nonpos_of_nonneg_of_nonpos (by positivity) hneg
+      linarith
+    · rw [not_le] at hneg
+      have h1a : 0 ≤ 1 - a := by linarith
+      have h1b : 0 ≤ 1 - b := by linarith
+      have hπ : 0 < π := pi_pos
+      calc 4 * π * (1 - a - b) ≤ (2 * π * (1 - a)) * (2 * (1 - b)) := by nlinarith [mul_nonneg ha0 hb0]
+        _ ≤ A * (2 * (1 - b)) := mul_le_mul_of_nonneg_right a2 (by linarith)
+        _ ≤ A * B := mul_le_mul_of_nonneg_left b2 hA.le
+  constructor
+  · nlinarith
+  · nlinarith
+
+theorem cylinder_volume_bounds_aux {S : Nat} {r H : ℝ} (hr : 0 < r) (hH : 0 < H) (hS : 3 ≤ S) :
+    volume6 (cylinderPos r H S) (cylinderTris S false false) / 6 ≤ π * r ^ 2 * H ∧
+    π * r ^ 2 * H * (1 - 2 * π ^ 2 / (3 * (S : ℝ) ^ 2)) ≤
+      volume6 (cylinderPos r H S) (cylinderTris S false false) / 6 := by
+  rw [cylinder_volume_aux r H hS]
+  obtain ⟨a1, a2⟩ := @ngon_bounds S (by omega)
+  have hk : 0 < r ^ 2 * H := by positivity
+  set A := (S : ℝ) * sin (2 * π / S) with hAdef
+  have e : 6 * ((S : ℝ) / 2 * sin (2 * π / S) * r ^ 2 * H) / 6 = r ^ 2 * H / 2 * A := by rw [hAdef]; ring
+  rw [e]
+  constructor
+  · nlinarith
+  · nlinarith
 
 end PolyVerif.Solids
